@@ -25,7 +25,7 @@ def ts_inner(v):
 
 
 def run(ctx, chk):
-    fb = ctx.facts('dev')
+    fb = ctx.facts()
     chk.explanation = ('Shape of the interval formula as a term over the record fields and the two clock readings: '
                        'earliest/latest = real -/+ ub with the same nodes (E1); dependency set of ub (E2); ub = bound + '
                        'int(age_ns x drift x 1e-9) with the full-nanosecond age selected by the causality table (E3); '
